@@ -311,7 +311,8 @@ inductive Region
   | classType                -- adapt_class_type
   | dictKwargsLoad
   | merge                    -- merge_config (apply_appends, discard_init_args_on_class_path_change)
-  | discard
+  | discard                  -- discard_init_args_on_class_path_change (module function): _check_value_key of the old init_args
+  | discardStatic            -- ActionTypeHint.discard_init_args_on_class_path_change: walks both configs; designed to raise nothing, no handler
   | knownArgs                -- argparse's _parse_known_args under parse_known_args' handler
   | typehintAction           -- ActionTypeHint.__call__
   | applyConfig              -- ActionConfigFile.apply_config
@@ -338,7 +339,7 @@ def Region.all : List Region :=
    .annotated, .registered, .enumLookup, .typeImport, .unionTry, .subclass, .callable, .dataclass, .classType,
    .dictKwargsLoad, .merge, .discard, .knownArgs, .typehintAction, .applyConfig, .acPath, .acStr, .acElse,
    .configLoad, .subcmdAction, .printConfigAction, .helpAction, .helpClassPath, .helpImport, .positional, .leftover, .loadDoc, .floatConv,
-   .subBody .parseArgs, .subBody .parseObject, .subBody .parseString, .subBody .parseEnv, .subBody .parsePath]
+   .subBody .parseArgs, .subBody .parseObject, .subBody .parseString, .subBody .parseEnv, .subBody .parsePath, .discardStatic]
 
 theorem Region.mem_all (r : Region) : r ∈ Region.all := by
   cases r with
@@ -437,11 +438,12 @@ def children : Region → List Region
   | .dataclass => [.innerBody .parseObject, .innerBody .parseArgs]
   | .classType => [.innerBody .parseObject, .innerBody .parseArgs, .dictKwargsLoad, .discard]
   | .dictKwargsLoad => [.loadValue]
-  | .merge => [.checkType, .discard]
+  | .merge => [.checkType, .discardStatic]
+  | .discardStatic => [.discard]
   | .discard => [.checkValueKey]
   | .knownArgs => [.typehintAction, .applyConfig, .configLoad, .merge, .subcmdAction, .printConfigAction,
                    .helpAction, .helpClassPath]
-  | .typehintAction => [.checkType, .discard]
+  | .typehintAction => [.checkType, .discardStatic]
   | .applyConfig => [.acPath, .acStr, .acElse, .merge]
   | .acStr => [.loadValue, .body .parseString]
   | .acElse => [.body .parsePath]
@@ -462,7 +464,7 @@ def stageOf : Region → Option Stage
   | .typehintAction | .applyConfig | .acElse | .subcmdAction | .printConfigAction | .helpAction
   | .helpClassPath | .helpImport => some .actionCall
   | .checkValueKey | .plainType | .checkType | .adapt | .annotated | .registered | .enumLookup | .typeImport | .floatConv
-  | .unionTry | .subclass | .callable | .dataclass | .classType | .anyClasses | .merge | .discard | .positional =>
+  | .unionTry | .subclass | .callable | .dataclass | .classType | .anyClasses | .merge | .discard | .discardStatic | .positional =>
     some .checkType
   | .loadValue | .yamlConstruct | .yamlAlways | .envList | .checkTypeLoad | .valueOrConfig | .anyLoad | .leafLoad
   | .dictKwargsLoad | .acStr | .configLoad => some .loadValue
@@ -643,6 +645,7 @@ def Region.code : Region → Nat
   | .configLoad => 63 | .subcmdAction => 64 | .printConfigAction => 65 | .helpAction => 66 | .helpClassPath => 67
   | .helpImport => 68 | .positional => 69 | .leftover => 70 | .loadDoc => 71 | .floatConv => 72
   | .subBody m => 73 + m.code
+  | .discardStatic => 78
 
 def St.idx (st : St) : Nat := 2 * st.1.code + (if st.2 then 1 else 0)
 
